@@ -29,10 +29,7 @@ Theorem C23_weight_multiplicity :
   (forall ws1 w ws2, combination_weight (ws1 ++ w :: ws2) = w * combination_weight (ws1 ++ 1 :: ws2)) /\
   (forall design c, (forall i, In i c -> nth_error design i <> None) ->
      sum_list (combo_weights design c) = crossing_size_wo design c).
-Proof.
-  split; [exact combination_weight_cons | split; [exact combination_weight_nil |
-  split; [exact weight_scales_combination | exact crossing_size_is_sum]]].
-Qed.
+Proof. exact weight_multiplicity. Qed.
 Print Assumptions C23_weight_multiplicity.
 
 (** Desugaring: the hidden derived factor has exactly the original level names, and every
